@@ -107,6 +107,11 @@ def _gen_prep_screen(w, single_sample_plates, allow_arity=False):
         if r[3] not in st:
             st[r[3]] = w.random() < obs_rate
         r[4] = st[r[3]]
+    if w.random() < 0.2:
+        # plates that came from the lab carry long labels sharing a long prefix (longer than any generated label)
+        ren = {p: f"2019-03-14_run_A_plate_{k:02d}" for k, p in enumerate(sorted(st))}
+        for r in rows:
+            r[3] = ren[r[3]]
     w.shuffle(rows)
     return dict(control=control, arity=arity, rows=rows)
 
@@ -144,6 +149,16 @@ def _gen_step(s, kind=None):
 def _gen_many_plates(w, s, prop):
     """A screen that the generators cut into MANY plates (1 001 ... 10 050): plate names / counters / ids past every
     power of ten that a fixed-width buffer or a text sort might assume."""
+    if w.random() < 0.5:
+        # samples holding EXACT multiples of a (large) size limit: every boundary row sits exactly on a plate boundary
+        m = w.choice([7, 49, 50, 96, 98, 103, 107, 161, 187])
+        rows = []
+        for i, mult in enumerate([2, 3, 1, w.randint(1, 4)]):
+            for j in range(mult * m):
+                rows.append([f"s{i:02d}", [["a", 1.0], ["b", float(1 + j % 5)]], 0.25 + 0.5 * ((i + j) % 2), "pl0", False])
+        steps = [dict(op="segregate", seed=s.randrange(2**31), advance=0, params=dict(max_plate_size=m))]
+        return dict(engine="prepsim", prop=prop, screen=dict(control="control", arity=2, rows=rows, layout="C"), steps=steps,
+                    reuse_objects=False, mapping_extra=0)
     m = w.choice([1, 2])
     n_samples = w.choice([1005, 10050, 10050])
     rows = []
@@ -158,7 +173,7 @@ def _gen_many_plates(w, s, prop):
 def gen_plan(prop, run_seed, tier):
     F = Forks(run_seed)
     w, s = F.fork("workload"), F.fork("schedule")
-    if w.random() < 0.004:
+    if w.random() < 0.008:
         return _gen_many_plates(w, s, prop)
     spec = _gen_prep_screen(w, single_sample_plates=w.random() < 0.7, allow_arity=True)
     n = s.randint(1, 6)
